@@ -51,11 +51,15 @@ def register(reg, prog):
     # ---- strings
     def str_join(ex, st, args, kw, node):
         sep, seq = args
+        if isinstance(seq, VList):
+            seq = ex.list_as_seq(st, seq)
         if isinstance(seq, VTuple):
             seq = coerce(seq, Seq(STR))
         f = z3.Function('str_join', StrS, sort_of(Seq(STR)), StrS)
         r = VStr(f(sep.t, seq.t))
         r.joined = (sep, seq)
+        if 'C16' in getattr(ex.cur_contract, 'properties', ()):
+            st.log.append(('join', sep, seq, r))       # C16's exit clauses speak about what was joined
         return [(st, r)]
     reg.externals['str.join'] = str_join
 
